@@ -401,8 +401,12 @@ where
         let fail = |clause: &str, what: &str, from: usize, to: usize, got: &dyn std::fmt::Debug, exp: &dyn std::fmt::Debug| {
             Err((clause.to_string(), format!("{what}({from},{to}) = {:?}, reference contents give {:?}", got, exp)))
         };
-        for from in 0..=len + 1 {
-            for to in 0..=len + 1 {
+        // every (from, to) in [0, len + 1]^2, plus the extreme bounds a caller may pass for "to the end" / "nothing"
+        let mut pairs: Vec<(usize, usize)> = vec![];
+        for from in 0..=len + 1 { for to in 0..=len + 1 { pairs.push((from, to)); } }
+        for &(f, t) in &[(0usize, usize::MAX), (len, usize::MAX), (len / 2, usize::MAX), (usize::MAX, usize::MAX), (usize::MAX, 0usize)] { pairs.push((f, t)); }
+        for (from, to) in pairs {
+            {
                 let exp: Vec<u32> = if from.min(len) >= to.min(len) { vec![] } else { items[from.min(len)..to.min(len)].iter().filter_map(|x| *x).collect() };
                 let a = v.collect_range_at(from, to);
                 if a != exp { return fail("C08.range", "collect_range_at", from, to, &a, &exp); }
@@ -559,7 +563,9 @@ pub fn run_history<V: StoredVec<I = usize, T = u32> + RawOps>(ops: &[Op], rep: &
         match r {
             Err(p) => {
                 let msg = p.downcast_ref::<String>().cloned().or_else(|| p.downcast_ref::<&str>().map(|s| s.to_string())).unwrap_or_default();
-                std::mem::forget(w);
+                // release the files even after a panic inside the library (a forgotten world leaks descriptors: thousands of
+                // panicking histories then exhaust them and crash the driver instead of reporting the violation)
+                let _ = std::panic::catch_unwind(std::panic::AssertUnwindSafe(move || drop(w)));
                 return Err(Failure { clause: "C08.nopanic".into(), detail: format!("panic: {msg}"), history: hist });
             }
             Ok(Step::Pruned) => { hist.pop(); if skip_pruned { continue; } else { return Ok(false); } }
@@ -571,7 +577,9 @@ pub fn run_history<V: StoredVec<I = usize, T = u32> + RawOps>(ops: &[Op], rep: &
         match chk {
             Err(p) => {
                 let msg = p.downcast_ref::<String>().cloned().or_else(|| p.downcast_ref::<&str>().map(|s| s.to_string())).unwrap_or_default();
-                std::mem::forget(w);
+                // release the files even after a panic inside the library (a forgotten world leaks descriptors: thousands of
+                // panicking histories then exhaust them and crash the driver instead of reporting the violation)
+                let _ = std::panic::catch_unwind(std::panic::AssertUnwindSafe(move || drop(w)));
                 return Err(Failure { clause: "C08.nopanic".into(), detail: format!("panic while reading: {msg}"), history: hist });
             }
             Ok(Err((c, d))) => return Err(Failure { clause: c, detail: d, history: hist }),
